@@ -312,20 +312,24 @@ func init() {
 		run: func(c *Ctx) {
 			famHist(c, defaultCfg, 25000*c.Scale, 8, "RcsspprR", true, allButVerrs, "two-handles", func(d *Driver, hc histCase, h *implHist, steps []Step, start Obs) {
 				c13Check(c, hc, steps, start)
+				c13Replay(c, hc)
 			})
 			famEdgeTwo(c, defaultCfg, allButVerrs, "edge-two-handles", func(d *Driver, hc histCase, h *implHist, steps []Step, start Obs) {
 				c13Check(c, hc, steps, start)
+				c13Replay(c, hc)
 			})
 			// with validation-error reporting on, the recorded errors are a getter too (ValidationErrors)
 			rep := cfgFromDesc("report")
 			famHist(c, rep, 6000*c.Scale, 8, "RcsssprR", true, allFields, "two-handles:report", func(d *Driver, hc histCase, h *implHist, steps []Step, start Obs) {
 				c13Check(c, hc, steps, start)
+				c13Replay(c, hc)
 			})
 			// the frame conditions do not depend on the options in force: a sweep over the other option families
 			for _, n := range []string{"specialAdd", "lax+collapse", "singlePct+acceptInvalid", "skipDrive+skipTrailSlash", "fail", "report+lax+specialAdd"} {
 				cfg := cfgFromDesc(n)
 				famHist(c, cfg, 1500*c.Scale, 8, "RcsspprR", true, allFields, "two-handles:"+n, func(d *Driver, hc histCase, h *implHist, steps []Step, start Obs) {
 					c13Check(c, hc, steps, start)
+					c13Replay(c, hc)
 				})
 			}
 		},
@@ -370,6 +374,82 @@ func c13Check(c *Ctx, hc histCase, steps []Step, start Obs) {
 			}
 		}
 		prevA, prevB = s.A, s.B
+	}
+}
+
+// c13Replay re-executes a two-slot history on fresh implementation values and evaluates the last clause of the
+// property directly: the operated-on value reflects the operation. After a SearchParams mutation through slot X,
+// X's own parameter list shows the mutation and X's query is the serialization of that list.
+func c13Replay(c *Ctx, hc histCase) {
+	defer func() { recover() }()
+	var u *url.Url
+	var err error
+	if hc.base == nil {
+		u, err = hc.cfg.Parser.Parse(hc.input)
+	} else {
+		u, err = hc.cfg.Parser.ParseRef(*hc.base, hc.input)
+	}
+	if err != nil || u == nil {
+		return
+	}
+	h := &implHist{}
+	h.u[0] = u
+	for k, o := range hc.ops {
+		x := h.u[o.Slot]
+		var before []string
+		if x != nil && strings.Contains("adt", o.K) {
+			before = pairsNoUpdate(h.handle(o.Slot))
+		}
+		h.step(o)
+		x = h.u[o.Slot]
+		if x == nil || !strings.Contains("adtoO", o.K) {
+			continue
+		}
+		sp := h.handle(o.Slot)
+		after := pairsNoUpdate(sp)
+		bad := ""
+		switch o.K {
+		case "a":
+			want := append(append([]string(nil), before...), o.A, o.B)
+			if strings.Join(after, "\x00") != strings.Join(want, "\x00") {
+				bad = fmt.Sprintf("the parameter list is %q, expected %q", after, want)
+			}
+		case "d":
+			for j := 0; j+1 < len(after); j += 2 {
+				if after[j] == o.A {
+					bad = fmt.Sprintf("the parameter list %q still has the name", after)
+				}
+			}
+			if len(after) > len(before) {
+				bad = fmt.Sprintf("the parameter list grew: %q -> %q", before, after)
+			}
+		case "t":
+			n := 0
+			for j := 0; j+1 < len(after); j += 2 {
+				if after[j] == o.A {
+					n++
+					if after[j+1] != o.B {
+						bad = fmt.Sprintf("the parameter list %q has another value for the name", after)
+					}
+				}
+			}
+			if n != 1 {
+				bad = fmt.Sprintf("the parameter list %q has the name %d times", after, n)
+			}
+		}
+		if bad != "" {
+			c.Report(Finding{Class: "violation", What: fmt.Sprintf("after %s on the operated-on value %s", o.String(), bad), Case: hc.Case(k)})
+			return
+		}
+		ser := sp.String()
+		if x.Query() != ser {
+			c.Report(Finding{Class: "violation", What: fmt.Sprintf("after %s the operated-on value does not reflect the operation: Query()=%q but its parameter list serializes to %q", o.String(), x.Query(), ser), Case: hc.Case(k)})
+			return
+		}
+		if hr := x.Href(true); ser != "" && !strings.HasSuffix(hr, "?"+ser) {
+			c.Report(Finding{Class: "violation", What: fmt.Sprintf("after %s the serialization %q of the operated-on value does not end with ?%s", o.String(), hr, ser), Case: hc.Case(k)})
+			return
+		}
 	}
 }
 
